@@ -504,6 +504,9 @@ func (c *verifC49Ctx) report(kind, fn, in string, format string, a ...any) {
 // judge applies the two-sided oracle. gotEq reports whether the accepted value equals the reference value.
 func (c *verifC49Ctx) judge(fn, in string, panicked bool, pmsg string, accepted bool, ref verifC49Ref, gotEq func() (bool, string)) {
 	c.r.Eval(1)
+	if len(in) == 3 && accepted {
+		c.r.Sample(map[string]any{"function": fn, "input": in, "accepted": accepted})
+	}
 	if panicked {
 		c.report("panic", fn, in, "panicked: %s", pmsg)
 		c.outcome(fn + "/panic")
